@@ -9,6 +9,16 @@
 
 
 static long g_curx = -1;
+static std::atomic<long> g_beat{0};      // bumped at every unit start; the watchdog ends a unit that takes more than 90 s
+static void watchdog() {
+  long last = -1; int same = 0;
+  for (;;) {
+    sleep(3);
+    long b = g_beat.load();
+    if (b == last) { if (++same >= 30) hang("unit did not finish within 90 s"); }
+    else { last = b; same = 0; }
+  }
+}
 #ifdef VRT_ASAN
 extern "C" void __asan_set_error_report_callback(void (*)(const char*));
 // the driver is built with -fsanitize-recover=address and run with halt_on_error=0: a report becomes an event of
@@ -20,6 +30,11 @@ static void on_asan(const char* rep) {
   if (const char* w = std::strstr(rep, "include/unifex/")) std::sscanf(w + 15, "%127[^ \n)]", where);
   vrt::ev("{\"e\":\"Asan\",\"x\":%ld,\"kind\":\"%s\",\"access\":\"%s\",\"where\":\"%s\"}", g_curx, kind, acc, where);
   vrt::log_flush();
+  static std::atomic<int> reports{0};
+  if (reports.fetch_add(1) >= 60) {     // nothing useful can be observed any more in this process
+    std::fprintf(stderr, "bulk driver: asan flood\n");
+    _exit(78);
+  }
 }
 #endif
 // ---------------------------------------------------------------- C12 side probe (out of scope for C17)
@@ -92,9 +107,11 @@ int main(int argc, char** argv) {
   if (to < 0 || to > (long)units.size()) to = (long)units.size();
   FILE* obs = obsPath.empty() ? nullptr : std::fopen(obsPath.c_str(), "a");
   long execs = 0;
+  std::thread(watchdog).detach();
   for (long x = from; x < to; ++x) {
     const json& u = units[x];
     g_curx = x;
+    g_beat.fetch_add(1);
     vrt::ev("{\"e\":\"Reset\",\"x\":%ld}", x);
     std::string comp = u["comp"].get<std::string>();
     json o = comp == "bulk" ? run_bulk(u) : comp == "find_if" ? run_find_if(u) : run_probe();
